@@ -62,7 +62,7 @@ CLAIMED.update({
 })
 CLAIMED.update({
  "C06": {"cat": "other", "text": "Proved: CsvPath._next_line hands on exactly the records the reader gives, in order, each tracked by the line monitor first (track_line: one step of the 0-based record number per record) and finalizes once at the end; Header.to_value reads the cell under the header by name or by index and reads as absent (None) on a short row or unknown header; CsvPath.header_index is the first position (loop invariant, array-encoded list); limit_collection is the identity without collect(). Bounded: files written by csv.writer (4 delimiters x 2 quote chars, quotes/delimiters/newlines/unicode/BOM in cells, ragged and blank records) are read back through the real CsvPath and compared with csv.reader's own parse; headers against the documented cleaning.",
-         "note": "csv dialect parsing itself is external ([A] csv.reader); CsvDataReader.next / LineCounter loops are covered by the bounded files only; xlsx/s3/pandas readers not covered.",
+         "note": "Two advisory call-site scans name what CsvDataReader.next hands to open() (utf-8 text) and csv.reader() (its own delimiter and quotechar); alone they only note 'undecided'. csv dialect parsing itself is external ([A] csv.reader); CsvDataReader.next / LineCounter loops are covered by the bounded files only; xlsx/s3/pandas readers not covered.",
          "tech": BT},
 })
 CLAIMED.update({
@@ -77,7 +77,7 @@ CLAIMED.update({
 })
 CLAIMED.update({
  "C19": {"cat": "other", "text": "Proved: LineMonitor.copy returns a different object equal on all eight counters; CsvPath.get_total_lines_and_headers asks the cacher for exactly the file being scanned, once. Frame scan over the whole package: the only writers of process-global state (class-level registries, warnings filter, os.environ, sys.path, chdir, random.seed, globals) are the four known idempotent ones. Bounded: 12 jobs over 5 files, each compared with the same job run first in a fresh process, across every ordered pair and 80 (thorough 1500) longer histories, cold vs warm cache, repeat runs, and mutation of the copies a cacher hands out.",
-         "note": "Equality with the fresh-process twin for ALL histories is a relation between two process histories: BOUNDED only. FileCacher.get_new_line_monitor/get_original_headers keep a dict of (object, list) tuples, outside the verifier's value model: bounded (clause callers_get_private_copies).",
+         "note": "Equality with the fresh-process twin for ALL histories is a relation between two process histories: BOUNDED only. FileCacher.get_new_line_monitor/get_original_headers keep a dict of (object, list) tuples, outside the verifier's value model: bounded (clause callers_get_private_copies). An advisory call-site scan names the dialect of the header cache (csv defaults on the writing and the reading side).",
          "tech": BT},
 })
 CLAIMED.update({
